@@ -187,6 +187,26 @@ specs["C09"] = {"property": "C09",
     "assumptions": COMMON_ASSUME + ["floats as uninterpreted functions", "pre-period frames are FFC-free"],
     "outside_claim": ["shapes above 4x4, gap > 3, PRE > gap+2, periods longer than the listed patterns (pattern bit masks are concrete per query)", "dynamic threshold across Reset (the property restricts reset-independence to the fixed threshold)"], "stubs_doc": ["log.Print* -> no-op"], "jobs": c09}
 
+SITES_STUB = {f"(*{MOTION}.motionDetector).updateBackground": "zzStubUpdateBackground", f"(*{MOTION}.motionDetector).calculateThreshold": "zzStubCalcThreshold"}
+c15 = [
+    det_job("update", "ZZ_C15_update", {"W": [1, 2, 3], "H": [1], "e": [0], "MEAN4": [0]}, None),
+    det_job("update_b", "ZZ_C15_update", {"W": [3, 4], "H": [3], "e": [1], "MEAN4": [0]}, {"W": [3, 4, 5], "H": [3, 4, 5], "e": [1], "MEAN4": [0]}),
+    det_job("update_c", "ZZ_C15_update", {"W": [5], "H": [5], "e": [2], "MEAN4": [0]}, {"W": [5, 6], "H": [5], "e": [2], "MEAN4": [0]}),
+    det_job("update_mean4", "ZZ_C15_update", {"W": [2], "H": [2], "e": [0], "MEAN4": [1]}, None, "thorough", solvers=["cvc5", "z3-new", "z3"], timeout=900),
+    det_job("clamp", "ZZ_C15_clamp", {}, None),
+    det_job("detect1", "ZZ_C15_detect", {"W": [1], "H": [1], "e": [0]}, None),
+    det_job("detect1b", "ZZ_C15_detect", {"W": [3], "H": [3], "e": [1]}, {"W": [3, 5], "H": [3, 5], "e": [1, 2]}),
+]
+sites = det_job("sites", "ZZ_C15_sites", {}, None)
+sites["stubs"] = SITES_STUB
+sites["native_rewrite"] = ["motion.go:motionDetector.updateBackground=zzStubUpdateBackground", "motion.go:motionDetector.calculateThreshold=zzStubCalcThreshold"]
+c15.append(sites)
+specs["C15"] = {"property": "C15",
+    "explanation": "Bounded symbolic verification of the dynamic-threshold code of motion/motion.go with SMT FloatingPoint semantics (RNE; float->uint16 conversion RTZ). Lemmas, each from an arbitrary background state (all background pixels, float32 weights >= 0, frame counters, previous-FFC flag, thresholds symbolic): (update) after updateBackground every interior background pixel is <= the new frame's pixel, equals it after an FFC or on (re)seeding (backgroundFrames 0), weights stay non-negative, every border pixel equals the nearest interior pixel, and for 1- and 2-pixel interiors the returned average is exactly sum/n; (clamp) calculateThreshold yields trunc(avg) limited to [temp-thresh-min, temp-thresh-max] for every avg in [0,65536) and every unset/set combination with min <= max; (sites) with updateBackground and calculateThreshold replaced by recording stubs, Detect changes the threshold only via calculateThreshold applied to the average returned by updateBackground in the same call, never on an FFC-affected frame or with a fixed threshold, and passes the previous-FFC flag; (detect) end-to-end cross-check for 1-pixel interiors. That the background/threshold in force are handed to the recorder at the trigger, and remembered for throttle restarts, is asserted in the C01 and C06 harnesses (labels tagged C15).",
+    "assumptions": COMMON_ASSUME + ["weights are non-negative non-NaN float32 (they start at 0 and are only reset to 0 or incremented and capped)", "min <= max when both bounds are set"],
+    "outside_claim": ["exactness of the float64 mean for interiors with more than 2 pixels (the 4-pixel case is attempted in the thorough tier only); the mean is then covered by the structural 'sites' lemma plus the per-pixel lemmas", "shapes above 6x5"],
+    "stubs_doc": ["sites job only: updateBackground / calculateThreshold -> recording stubs (natively: overlay rename + forwarder)", "log.Print* -> no-op"], "jobs": c15}
+
 os.makedirs("/verif/checks", exist_ok=True)
 for pid, sp in specs.items():
     json.dump(sp, open(f"/verif/checks/{pid}.json", "w"), indent=1)
